@@ -991,7 +991,7 @@ class DynamicVector : public DynamicVectorBaseTypeDispatcher<T, Alloc, SizeType,
 
   template <class OAlloc, class OSizeType, bool OWithInlineElems>
   void swap2_impl(DynamicVector<T, OAlloc, OSizeType, OWithInlineElems> &o) noexcept(is_swap_noexcept<T>::value) {
-    if (this->canSwapDynStorage(o)) {
+    if (this->canExchangeDynStorage(o)) {
       // read both sizes and capacities before touching anything: once the capacity words are exchanged, a SmallVector
       // cannot tell any more from its words alone which one holds its size
       const SizeType mySize = this->size(), myCapa = this->capacity();
@@ -1060,16 +1060,23 @@ class DynamicVector : public DynamicVectorBaseTypeDispatcher<T, Alloc, SizeType,
   /// (as the two size types may differ we should use LargestSizeType to avoid overflows)
   template <class VectorType>
   void adjustEachOtherCapacity(VectorType &o) {
-    if (!this->canSwapDynStorage(o)) {
+    if (!this->canExchangeDynStorage(o)) {
       adjustCapacity(o.size());
       o.adjustCapacity(this->size());
-    } else if (AMC_UNLIKELY(static_cast<uintmax_t>(std::numeric_limits<SizeType>::max()) < o.capacity() ||
-                            static_cast<uintmax_t>(std::numeric_limits<typename VectorType::size_type>::max()) <
-                                this->capacity())) {
-      // The dynamic buffers are about to change owner: check here, before anything is modified (swap2_impl is noexcept),
-      // that each capacity can be represented by the size_type of its new owner
-      throw std::overflow_error("Cannot cast size to each other");
     }
+  }
+
+  /// Dynamic buffers can change owner only if, in addition, each capacity can be represented by the size_type of its new
+  /// owner. Otherwise the elements are exchanged one by one (sizes are checked by adjustEachOtherCapacity).
+  template <class OSizeType, class OGrowingPolicy>
+  bool canExchangeDynStorage(StaticVector<T, OSizeType, OGrowingPolicy> &) const noexcept {
+    return false;
+  }
+  template <class OAlloc, class OSizeType, bool OWithInlineElems>
+  bool canExchangeDynStorage(DynamicVector<T, OAlloc, OSizeType, OWithInlineElems> &o) const noexcept {
+    return this->canSwapDynStorage(o) &&
+           static_cast<uintmax_t>(o.capacity()) <= static_cast<uintmax_t>(std::numeric_limits<SizeType>::max()) &&
+           static_cast<uintmax_t>(this->capacity()) <= static_cast<uintmax_t>(std::numeric_limits<OSizeType>::max());
   }
 };
 
